@@ -101,6 +101,8 @@ if [ -n "${VERIF_PROBE_LOG:-}" ]; then
     lock="$(cat "${VERIF_ROOT}/.running" 2>/dev/null | tr -d '\n')"
     echo "hook $1 $up exit=$2 lock=$lock" >> "$VERIF_PROBE_LOG"
 fi
+# a hook that itself fails must have no effect on the run
+exit "${VERIF_HOOK_EXIT:-0}"
 ''',
     # step command used by the orchestrator harnesses:
     #   probe NAME : logs start/end with a monotonic stamp and the content of .running,
